@@ -2,7 +2,7 @@ SPEC = {
     "id": "C24",
     "props_module": "NDB.Props.C24",
     "corr_modules": ["NDB.Corr.C24"],
-    "theorems": ["C24_spec_is_sequential", "C24_refuted", "C24_full_refuted", "C24_creates_only", "C24_disjoint_footprints"],
+    "theorems": ["C24_spec_is_sequential", "C24_refuted", "C24_full_refuted", "C24_creates_only", "C24_disjoint_footprints", "C24_code_txn_disjoint_footprints", "C24_label_order_refuted"],
     "allowed_axioms": [],
     "harness_pkg": "hx_txn",
     "harness_bin": "c24",
@@ -20,8 +20,10 @@ SPEC = {
     "assumptions": [
         "statement family as for C13; ndb_txn_query refuses read-only statements and returns no rows, so a transaction's "
         "own reads are observable only through MATCH-driven updates and the final dump",
-        "labelled MATCH (n:L) only: an unlabelled MATCH (n) additionally sees nodes staged by earlier statements "
-        "(execute_node_scan_with_staged_creates) — observed, not modelled",
+        "the unlabelled scan MATCH (n) sees the nodes staged by earlier statements (with or without labels) and is modelled as such "
+        "(Txn/Model.v scan_view); labelled scans, property predicates and MERGE read the committed snapshot only",
+        "labels: :L on every initial node, :F1/:F2 never interned before the transaction; label removals are applied at commit after "
+        "all other buffered writes (K-C24-label-order)",
         "Python and Node bindings are not exercised (they call the same execute_mixed path with db.snapshot())",
     ],
     "manifest": {
